@@ -39,6 +39,18 @@ def run(ctx):
         "names are ASCII; S3/WebDAV resource paths are not executable here",
     ]
     with core.Lock():
+        # T-tie: the recount loop of FileDatastore.emptyTrash (which artifacts still have a dataset that is not being trashed) is
+        # translated from the working tree into Gen/TrashPy.lean; C09.Translated.recount_keeps_iff characterises it and
+        # slowKeep_is_recount identifies the hand-written model's slowKeep with it
+        import sys as _sys
+
+        _sys.path.insert(0, os.path.join(core.VERIF, "translate"))
+        try:
+            import gen_trash
+
+            gen_trash.generate(core.GEN_DIR)
+        except Exception as e:
+            ctx.broken.append(f"translation: FileDatastore.emptyTrash (recount): {type(e).__name__}: {e}")
         built = core.lean_build(ctx, LEAN_TARGETS)
         if built:
             core.lean_audit(ctx, ["ButlerModel.Props.C09"])
